@@ -68,7 +68,7 @@ def _gen_script(rng, i):
     s['pool'] = {'max_watermark': rng.choice([1, 1, 2]), 'min_watermark': rng.choice([0, 1]),
                  'max_queue_len': rng.choice([0, 1, 2, 1000])}
   template = rng.choice(['random', 'random', 'preopen', 'queue', 'connect', 'latereply', 'faults', 'members', 'sendq', 'pingrace',
-                         'agedtags' if kind == 'mux' else 'random', 'opentick', 'emptyset', 'bigstall'])
+                         'agedtags' if kind == 'mux' else 'random', 'opentick', 'emptyset', 'bigstall', 'deadq', 'twinlate'])
   steps = s['steps']
   nc = [0]
 
@@ -138,6 +138,53 @@ def _gen_script(rng, i):
     issue(rng.choice([203, 1003]))
     steps.append(['adv', 20])
     steps += [['reply', 0], ['reply', 0], ['reply', 0], ['adv', 50]]
+  elif template == 'twinlate':
+    # a second client of the same service to the same server is created while the first has calls in flight;
+    # calls and replies then alternate between the two connections (calls whose number is a multiple of 3 use it)
+    s['nep'] = 1
+    s['plans'] = [['ok', 0]]
+    s['auto'] = None
+    s['twin'] = 'later'
+    steps.append(['adv', 100])
+    issue(1003)
+    issue(1003)
+    steps.append(['adv', 10])
+    steps.append(['mktwin'])
+    issue(1003)             # 3: second client
+    steps.append(['adv', 10])
+    steps.append(['reply', rng.choice([0, 1])])
+    steps.append(['adv', 10])
+    issue(1003)
+    issue(1003)
+    issue(1003)             # 6: second client
+    steps.append(['adv', 10])
+    for _ in range(5):
+      steps.append(['reply', rng.choice([0, 0, 1, 2])])
+    steps.append(['adv', 50])
+  elif template == 'deadq':
+    # the peer stops reading: a request's write blocks and the request times out (its discard is queued); a second
+    # request is handed in after that and times out in the queue behind the discard; when the peer reads again
+    # the connection is used by further calls
+    s['nep'] = 1
+    s['plans'] = [['ok', 0]]
+    s['auto'] = rng.choice([None, 0])
+    steps.append(['adv', 300])
+    if rng.random() < 0.5:
+      issue(1003)
+      steps.append(['adv', 10])
+      steps.append(['reply', 0])
+      steps.append(['adv', 10])
+    steps.append(['stall', 800])
+    issue(rng.choice([53, 107]))
+    steps.append(['adv', 150])
+    issue(rng.choice([23, 53]))
+    if rng.random() < 0.5:
+      issue(rng.choice([23, 1003]))
+    steps.append(['adv', 700])
+    issue(1003)
+    issue(1003)
+    steps.append(['adv', 20])
+    steps += [['reply', 0], ['reply', 0], ['reply', 0], ['reply', 0], ['adv', 50]]
   elif template == 'emptyset':
     # every member leaves the server set while several calls with different deadlines are in flight on it
     # (and maybe comes back): the calls still complete on time
@@ -250,6 +297,14 @@ def _decorate(rng, s):
     for op in s['steps']:
       if op[0] == 'issue' and rng.random() < 0.5:
         op.append(big if rng.random() < 0.8 else rng.choice([100, 4000]))
+  elif k < 0.32 and not any(o[0] in ('join', 'leave') for o in s['steps']):
+    if rng.random() < 0.3:
+      s['twin'] = 'start'
+    else:
+      s['twin'] = 'later'
+      idx = [i for i, o in enumerate(s['steps']) if o[0] == 'issue']
+      at = idx[rng.randrange(len(idx))] + 1 if idx else 0
+      s['steps'].insert(at, ['mktwin'])
   return s
 
 
@@ -442,6 +497,7 @@ def patch_random(seed):
 
 def run_case(script):
   loop = common.boot()
+  common.cpu_watchdog(30)
   import gevent
   from harness.simgevent import simnet, peers
   from harness.simgevent.vloop import EPOCH
@@ -485,6 +541,8 @@ def run_case(script):
     rec.method = 'echo'
     peer.void_methods = ('ping',)
   h = build_client(script, loop, net)
+  # a second client of the same service to the same servers in the same process (every third call goes through it)
+  h2 = build_client(script, loop, net) if script.get('twin') == 'start' else None
   loop.settle()
   max_deadline = T0
 
@@ -492,6 +550,8 @@ def run_case(script):
     k = op[0]
     if k == 'issue':
       cl = h['client']
+      if h2 is not None and op[1] % 3 == 0 and h2['client'] is not None:
+        cl = h2['client']
       if cl is None:
         continue
       c, T = op[1], op[2]
@@ -519,6 +579,10 @@ def run_case(script):
       finally:
         d._dispatch_timeout = old
       rec.track(c, ar)
+    elif k == 'mktwin':
+      if h2 is None:
+        h2 = build_client(script, loop, net)      # opens while the first client has calls in flight
+        loop.settle()
     elif k == 'vping':
       # a two-way void call without arguments (answered by the peer at once); not one of the traced calls
       cl = h['client']
